@@ -84,7 +84,7 @@ def gen(tape, for_c10=False):
                   tape.pick(['payload', '', '\x00\xff binary \n', 'x' * 300], 'adata')])
     else:
       ops.append(['log'])
-  return {'meas': meas, 'ops': ops, 'pre_diag': tape.chance(400, 'pre_diag'), 'allow_unset': tape.chance(200, 'allow_unset'),
+  return {'meas': meas, 'ops': ops, 'pre_diag': tape.chance(400, 'pre_diag'), 'pre_diag_internal': tape.chance(400, 'pre_diag_internal'), 'pre_attach': tape.chance(500, 'pre_attach'), 'allow_unset': tape.chance(200, 'allow_unset'),
           'inline_attachments': tape.chance(600, 'inline'), 'allow_nan': tape.chance(200, 'allow_nan'),
           'watcher': tape.chance(300, 'watcher') if for_c10 else False}
 
@@ -122,7 +122,8 @@ def build(ctx, spec, sink, hooks):
   phase = htf.PhaseOptions(requires_state=True)(htf.measures(*ml)(mbodies.make_meas_phase(ctx, spec, hooks)))
   nodes = [phase]
   if spec['pre_diag']:
-    nodes.insert(0, mbodies.make_diag_phase(ctx))
+    names = [op[1] for op in spec['ops'] if op[0] == 'attach'] if spec.get('pre_attach') else []
+    nodes.insert(0, mbodies.make_diag_phase(ctx, spec.get('pre_diag_internal', False), names))
   test = htf.Test(*nodes, test_name='wmeas')
   test.add_output_callbacks(lambda rec: sink.append(rec))
   return test
